@@ -44,7 +44,11 @@ Cycles == { [cells |-> Sizes, insts |-> << In("x", "a", <<FALSE, FALSE>>, R("x",
 Arr(count, sep, inner, r, xy) == [name |-> "arr", cell |-> "a", count |-> count, sep |-> sep, inner |-> inner, rh |-> r[1], rv |-> r[2], xy |-> xy]
 Arrays == { Arr(n, sp, inner, r, <<4, -6>>) : n \in 1..4, sp \in {<<3, 0>>, <<0, 2>>, <<5, 7>>}, r \in Refl,
                                               inner \in { <<>>, <<[count |-> 3, sep |-> <<0, 11>>]>>, <<[count |-> 2, sep |-> <<13, 1>>]>> } }
+\* two array instances of ONE array definition (the harness shares the definition object between array instances with equal
+\* cell / count / separation / inner array), reflected independently and located apart
+Arr2(a, r, xy) == [a EXCEPT !.name = "arr2", !.rh = r[1], !.rv = r[2], !.xy = xy]
 ArrayPrograms == { [cells |-> Sizes, insts |-> <<>>, arrays |-> <<a>>] : a \in Arrays }
+            \cup { [cells |-> Sizes, insts |-> <<>>, arrays |-> <<a, Arr2(a, r, <<-20, 15>>)>>] : a \in { x \in Arrays : x.count \in {2, 3} }, r \in Refl }
 \* Random programs (Scope "random", NRand of them; TLC's RandomElement, reproducible under -seed): five instances, each
 \* placed absolutely or relative to a random EARLIER one by a random orthogonal relation, random reflections and cells,
 \* listed in a random order; TLC explores every placement interleaving of each
